@@ -52,13 +52,9 @@ fn setup() -> R<Setup> {
 fn action(how: usize) -> ObscureAction { match how { 0 => ObscureAction::Elide, 1 => ObscureAction::Encrypt(test_key()), _ => ObscureAction::Compress } }
 fn obscured_kind(how: usize) -> Kind { match how { 0 => Kind::Elided, 1 => Kind::Encrypted, _ => Kind::Compressed } }
 
-/// Compress cannot be applied to an element that is already elided or encrypted (the library
-/// panics there today: C16's finding); those combinations are outside C02/C03.
-fn outside(e: &Envelope, exp: &[(Vec<usize>, Option<bool>)], how: usize) -> bool {
-    if how != 2 { return false; }
-    let ps = positions(e);
-    exp.iter().any(|(p, v)| *v == Some(true) && matches!(at(&ps, p).map(|x| x.kind), Some(Kind::Elided) | Some(Kind::Encrypted)))
-}
+/// (Compress cannot be applied to an element that is already elided or encrypted: such an element,
+/// being obscured already, is left as it is)
+fn outside(_e: &Envelope, _exp: &[(Vec<usize>, Option<bool>)], _how: usize) -> bool { false }
 
 fn run_obscure(s: &Setup) -> Envelope {
     let tset = to_set(&s.t.iter().cloned().collect::<Vec<_>>());
@@ -100,7 +96,6 @@ fn c02_two_pass() -> R {
     let ps = positions(&e);
     let first = &ps[choice(ps.len())];
     let how1 = choice(3);
-    rt::assume(!(how1 == 2 && matches!(first.kind, Kind::Elided | Kind::Encrypted)))?;
     op("elide_removing_set_with_action (first pass)");
     let r1 = e.elide_removing_set_with_action(&to_set(&[first.d]), &action(how1));
     ensure!(dg(&r1) == dg(&e), "root digest changed by obscuring", "first pass");
@@ -171,7 +166,7 @@ fn c03_targets() -> R {
             Some(true) => {
                 expected_paths += 1;
                 let x = crate::must_some!(at(&pr, path), "hidden element vanished instead of being replaced by a placeholder");
-                let want = obscured_kind(s.how);
+                let want = if s.how == 2 && matches!(o.kind, Kind::Elided | Kind::Encrypted) { o.kind } else { obscured_kind(s.how) };
                 ensure!(x.kind == want, "targeted element not obscured as the action says", "at {:?}: {:?} (original {:?}), expected {:?}", path, x.kind, o.kind, want);
                 ensure!(x.d == o.d, "placeholder carries another digest", "at {:?}", path);
             }
@@ -244,7 +239,7 @@ pub fn prop_c02() -> Prop {
         id: "C02",
         scenarios: vec![
             Scenario { name: "targets", f: c02_targets, thorough_only: false,
-                bounds: "every shape of <=7 elements (quick) / <=9 (thorough) + 16 larger hand-written shapes (incl. already obscured children, repeated content, node-subject-node) + shapes with known values <=5 x target set = every subset of the shape's distinct element digests when it has <=7 (9) of them, else every set of <=2 (3) digests, optionally plus an absent digest x {removing, revealing} x {Elide, Encrypt, Compress} x every digest order. Outside: Compress applied to an already elided/encrypted element (C16)",
+                bounds: "every shape of <=7 elements (quick) / <=9 (thorough) + 16 larger hand-written shapes (incl. already obscured children, repeated content, node-subject-node) + shapes with known values <=5 x target set = every subset of the shape's distinct element digests when it has <=7 (9) of them, else every set of <=2 (3) digests, optionally plus an absent digest x {removing, revealing} x {Elide, Encrypt, Compress} x every digest order.",
                 api: API },
             Scenario { name: "two_pass", f: c02_two_pass, thorough_only: false,
                 bounds: "every shape of <=5 elements + 4 nested shapes (quick) / <=7 + 16 larger shapes (thorough) x first pass: any single position obscured with any action x second pass over the result: every target set of <=2 digests x {removing, revealing} x 3 actions x every digest order",
